@@ -162,10 +162,17 @@ class World:
             self.I[n] = InterfaceClass(
                 n, tuple(self.I[b] for b in IF_BASES[n]) or (Interface,),
                 {'__module__': wmod()})
+        # class C is an instance of a metaclass that implements IM: as an
+        # *object*, C provides IM through its type, whatever is declared on or
+        # asked about C, and instances of C never do
+        self.IM = InterfaceClass('IM', (Interface,), {'__module__': wmod()})
+        self.Meta = type('Meta', (type,), {'__module__': wmod()})
+        classImplements(self.Meta, self.IM)
         self.K = {}
         for n, bs in cl_bases.items():
-            self.K[n] = type(n, tuple(self.K[b] for b in bs) or (object,),
-                             {'__module__': wmod()})
+            mk = self.Meta if n == 'C' else type
+            self.K[n] = mk(n, tuple(self.K[b] for b in bs) or (object,),
+                           {'__module__': wmod()})
         self.O = {o: self.K[k]() for o, k in objs.items()}
         self.L = Model(True, cl_bases, objs)
         self.U = Model(False, cl_bases, objs)
@@ -240,6 +247,8 @@ def observe(w):
     bad = None
     for o, ob in w.O.items():
         fl = _names(providedBy(ob))
+        if 'IM' in fl or w.IM.providedBy(ob):
+            bad = bad or ('instance provides what only the metaclass of its class implements', o)
         for n in IF_NAMES:
             if w.I[n].providedBy(ob) != (n in fl):
                 bad = bad or ('I.providedBy(ob) disagrees with providedBy(ob)', o, n)
@@ -254,6 +263,13 @@ def observe(w):
         for n in IF_NAMES:
             if w.I[n].providedBy(cls) != (n in fl):
                 bad = bad or ('I.providedBy(cls) disagrees with providedBy(cls)', k, n)
+        via_meta = isinstance(cls, w.Meta)
+        if ('IM' in fl) != via_meta or w.IM.providedBy(cls) != via_meta:
+            bad = bad or ('class object and the interface implemented by its metaclass', k,
+                          'IM' in fl, w.IM.providedBy(cls), via_meta)
+        fl.discard('IM')
+        if 'IM' in _names(implementedBy(cls)):
+            bad = bad or ('implementedBy(cls) reports what the metaclass implements', k)
         res['cls:' + k] = fl
     return res, bad
 
@@ -404,7 +420,7 @@ def replay(case):
 
 
 CFG = {
-    'tree': dict(world='tree', sub='B', kill=['b1'], cls_subjects=['B']),
+    'tree': dict(world='tree', sub='B', kill=['b1'], cls_subjects=['B', 'C']),
     'diamond': dict(world='diamond', sub='D', kill=['d1'], cls_subjects=['D']),
 }
 
